@@ -25,6 +25,7 @@ func main() {
 	dump := flag.String("dump", "", "dump paths of a function (debug)")
 	inline := flag.String("inline", "", "comma separated callee names to inline (debug dump)")
 	unroll := flag.Int("unroll", 0, "loop unroll (debug dump)")
+	pair := flag.Bool("pair", false, "pairs of consecutive loop iterations (debug dump)")
 	max := flag.Int("max", 50, "max paths to print (debug dump)")
 	list := flag.Bool("list", false, "list registered properties")
 	modOf := flag.String("mod", "", "debug: print the effect summary of a function")
@@ -56,7 +57,7 @@ func main() {
 		return
 	}
 	if *dump != "" {
-		debugDump(*repo, *dump, *inline, *unroll, *max, *startAt)
+		debugDump(*repo, *dump, *inline, *unroll, *max, *startAt, *pair)
 		return
 	}
 	if *prop == "" {
@@ -164,7 +165,7 @@ func uniq(in []string) []string {
 	return out
 }
 
-func debugDump(repo, name, inline string, unroll, max int, startAt string) {
+func debugDump(repo, name, inline string, unroll, max int, startAt string, pair bool) {
 	p, err := core.Load(repo, core.VDefault)
 	if err != nil {
 		fmt.Fprintln(os.Stderr, err)
@@ -189,7 +190,7 @@ func debugDump(repo, name, inline string, unroll, max int, startAt string) {
 			}
 		}
 	}
-	total, err := x.Paths(fn, core.Opts{Unroll: unroll, NonNilOnNilErr: true, Start: start,
+	total, err := x.Paths(fn, core.Opts{Unroll: unroll, PairIter: pair, NonNilOnNilErr: true, Start: start,
 		Inline: func(c *ssa.Function, d int) bool { return inl[core.FuncName(c)] || inl["*"] }}, func(path *core.Path) {
 		n++
 		if n <= max {
